@@ -82,6 +82,31 @@ func (fg *FnGen) preserveAcrossHavoc(st, st2 *State, reach *Term, li *loopInfo) 
 		name, hs := fg.cellVar(sc.ty)
 		fg.assume(Eq(Select(fg.lookup(st2, name, hs), sc.ref), Select(fg.lookup(st, name, hs), sc.ref)))
 	}
+	// allocations that have not escaped yet at this call: no escaping use can have executed before it
+	if li == nil && fg.curIns != nil {
+		for _, lc := range fg.lateCells {
+			private := true
+			for _, e := range lc.sites {
+				if e == fg.curIns {
+					private = false // handed over by this very call
+					break
+				}
+				if mayPrecede(e, fg.curIns) {
+					private = false
+					break
+				}
+			}
+			if !private {
+				continue
+			}
+			if _, ok := lc.ty.Underlying().(*types.Struct); ok {
+				fg.preserveStruct(st, st2, reach, lc.ref, lc.ty, 0)
+				continue
+			}
+			name, hs := fg.cellVar(lc.ty)
+			fg.assumeIf(reach, Eq(Select(fg.lookup(st2, name, hs), lc.ref), Select(fg.lookup(st, name, hs), lc.ref)))
+		}
+	}
 	if li != nil && storesThroughParam {
 		return
 	}
